@@ -10,9 +10,10 @@ import Gvlean.Go.Basic
 
 namespace Go
 
+/-- Go `rune`; spelled `Int` in signatures so that `omega` sees through it -/
 abbrev Rune := Int
 
-def runeError : Rune := 0xFFFD
+def runeError : Int := 0xFFFD
 
 @[inline] def isCont (b : UInt8) : Bool := 0x80 ≤ b && b ≤ 0xBF
 
@@ -25,7 +26,7 @@ def hi4 (b0 : UInt8) : UInt8 := if b0 == 0xF4 then 0x8F else 0xBF
 
 /-- Decode the rune starting with byte `b0` followed by `rest`.
     Returns the rune and the number `k` of bytes of `rest` that were consumed (0..3). -/
-def decode1 (b0 : UInt8) (rest : Bytes) : Rune × Nat :=
+def decode1 (b0 : UInt8) (rest : Bytes) : Int × Nat :=
   if b0 < 0x80 then (Int.ofNat b0.toNat, 0)
   else if b0 < 0xC2 then (runeError, 0)
   else if b0 < 0xE0 then
@@ -50,7 +51,7 @@ def decode1 (b0 : UInt8) (rest : Bytes) : Rune × Nat :=
   else (runeError, 0)
 
 /-- `for i, c := range s` starting at byte offset `off`. -/
-def runesFrom (off : Nat) : Bytes → List (Int × Rune)
+def runesFrom (off : Nat) : Bytes → List (Int × Int)
   | [] => []
   | b0 :: rest =>
     let d := decode1 b0 rest
@@ -59,7 +60,7 @@ termination_by s => s.length
 decreasing_by simp only [List.length_drop, List.length_cons]; omega
 
 /-- `for i, c := range s`. -/
-def runes (s : Bytes) : List (Int × Rune) := runesFrom 0 s
+def runes (s : Bytes) : List (Int × Int) := runesFrom 0 s
 
 /-- `utf8.RuneCountInString(s)`. -/
 def runeCount (s : Bytes) : Nat := (runes s).length
